@@ -11,7 +11,7 @@ import importlib
 import numpy as np
 from hypothesis import strategies as st
 
-from ..core import Discard, Violation, expect_exact, expect_round, guard
+from ..core import Discard, Violation, expect_exact, expect_round, guard, scribble
 from ..runner import Sub
 
 PROPERTY = "C02"
@@ -93,6 +93,7 @@ def strategy(tier):
         "kind": st.sampled_from(["indexed", "xy", "xy", "hist", "unbinned", "indexed_model", "xy_model", "hist_model"]),
         "n": st.integers(1, N_MAX),
         "values": _vec(_val), "values2": _vec(_val),
+        "reuse_buffers": st.booleans(),  # the harness overwrites, in place, every array it has handed over (error vectors, matrices, new values)
         "ops": st.lists(st.one_of(one, one, one, one, one, one, one, masked), min_size=1, max_size=n_ops).map(lambda ll: [o for l in ll for o in l]),
     })
 
@@ -269,6 +270,8 @@ def run(case):
                         h.c.add_error(op["axis"], arg, name=name, correlation=op["rho"], relative=rel)
                     else:
                         h.c.add_error(arg, name=name, correlation=op["rho"], relative=rel)
+                if case.get("reuse_buffers"):
+                    scribble(arg)  # the caller's array is overwritten after the call: the declared source must not follow it
                 h.sources.append({"name": name, "axis": ax, "kind": "simple", "err": e, "rho": float(op["rho"]), "relative": rel, "enabled": True})
             else:
                 R, e, M = _matrix_from(op["L"], op["err"], n, op["form"])
@@ -283,6 +286,9 @@ def run(case):
                         h.c.add_matrix_error(op["axis"], *args, **kw)
                     else:
                         h.c.add_matrix_error(*args, **kw)
+                if case.get("reuse_buffers"):
+                    scribble(args[0])
+                    scribble(kw.get("err_val"))
                 h.sources.append({"name": name, "axis": ax, "kind": "matrix", "M": M, "relative": rel, "enabled": True})
                 h.labels.add("matrix_source")
                 if rel and h.two_axes and isinstance(op["axis"], str) and not op["axis"].isdigit():
@@ -327,18 +333,27 @@ def run(case):
             done = False
             if h.kind == "indexed" and how in ("data", "x", "y"):
                 with guard("set:data"):
-                    h.c.data = v.copy()
+                    buf = v.copy()
+                    h.c.data = buf
+                if case.get("reuse_buffers"):
+                    scribble(buf)
                 h.vals[1] = v
                 done = True
             elif h.kind == "xy":
                 if how == "x":
                     with guard("set:x"):
-                        h.c.x = v.copy()
+                        buf = v.copy()
+                        h.c.x = buf
+                    if case.get("reuse_buffers"):
+                        scribble(buf)
                     h.vals[0] = v
                     done = True
                 elif how in ("y", "data"):
                     with guard("set:y"):
-                        h.c.y = v2.copy()
+                        buf = v2.copy()
+                        h.c.y = buf
+                    if case.get("reuse_buffers"):
+                        scribble(buf)
                     h.vals[1] = v2
                     done = True
                 elif how in ("xy", "xy_T") and (n != 2 or how == "xy"):
@@ -376,7 +391,10 @@ def run(case):
                     else:
                         h.params = [v[0] / 10.0, v2[0] / 10.0]
                     with guard("set:parameters"):
-                        h.c.parameters = list(h.params)
+                        buf = list(h.params)
+                        h.c.parameters = buf
+                    if case.get("reuse_buffers") and False:
+                        scribble(buf)  # not done: the parameters setter documents no copy and the fits rely on passing their own array
                     if h.kind == "indexed_model":
                         h.vals[1] = h.f(*h.params)
                     elif h.kind == "xy_model":
@@ -408,6 +426,8 @@ def run(case):
             h.read("all", "xy"[ax] if h.two_axes else 1, "final")
         if change_after_read_with_rel or last_toggle_then_read:
             nontrivial = True
+    if case.get("reuse_buffers"):
+        h.labels.add("caller_buffers_overwritten_after_each_call")
     return {"nontrivial": nontrivial or toggle_around_read, "labels": sorted(h.labels | {h.kind})}
 
 
